@@ -225,29 +225,48 @@ Proof.
   intros ((W1 & W2 & W3 & W4 & W5) & Hs) Hrow Hj. unfold is_canonical.
   rewrite uadd_small by lia.
   destruct (N.eqb_spec (lenN (cp m)) (crow m + 1)); [|contradiction]. cbn [negb].
+  rewrite (getN_ok (cp m) 0 0) by lia. cbn [bind]. fold (pN m 0). rewrite W2. cbn [N.eqb negb].
   rewrite (getN_ok (cp m) (crow m) 0) by lia. cbn [bind]. fold (pN m (crow m)). rewrite W4.
   rewrite N.eqb_refl. rewrite W5, N.eqb_refl. cbn [negb orb].
-  destruct (N.eqb_spec (lenN (cj m)) 0); cbn [negb]; [reflexivity|].
   destruct (has_canonical_format_spec m W1 Hrow Hj W4) as (r & Hr & Hq). rewrite Hr.
   f_equal. apply Hq. split; assumption.
 Qed.
 
-(* ... and a matrix with stored entries that it accepts is canonical (p_[0] = 0 is not checked by
-   the code, and when nothing is stored the row pointers are not looked at: see the refutation) *)
-Theorem is_canonical_sound_guarded (m : mat) :
-  is_canonical m = Ok true -> pN m 0 = 0 -> lenN (cj m) <> 0 ->
-  crow m < 2 ^ 31 -> lenN (cj m) < 2 ^ 31 -> canon m.
+(* ... and only those: it checks the sizes, p_[0] = 0, the row pointers and the rows *)
+Theorem is_canonical_sound (m : mat) :
+  is_canonical m = Ok true -> crow m < 2 ^ 31 -> lenN (cj m) < 2 ^ 31 -> canon m.
 Proof.
-  intros H H0 Hnz Hrow Hj. unfold is_canonical in H.
+  intros H Hrow Hj. unfold is_canonical in H.
   rewrite uadd_small in H by lia.
   destruct (N.eqb_spec (lenN (cp m)) (crow m + 1)) as [Hlen|]; [|discriminate]. cbn [negb] in H.
+  rewrite (getN_ok (cp m) 0 0) in H by lia. cbn [bind] in H. fold (pN m 0) in H.
+  destruct (N.eqb_spec (pN m 0) 0) as [H0|]; [|discriminate]. cbn [negb] in H.
   rewrite (getN_ok (cp m) (crow m) 0) in H by lia. cbn [bind] in H. fold (pN m (crow m)) in H.
   destruct (N.eqb_spec (lenN (cj m)) (pN m (crow m))) as [Hn|]; [|discriminate].
   destruct (N.eqb_spec (lenN (cx m)) (pN m (crow m))) as [Hx|]; [|discriminate]. cbn [negb orb] in H.
-  destruct (N.eqb_spec (pN m (crow m)) 0); [lia|]. cbn [negb] in H.
   destruct (has_canonical_format_spec m Hlen Hrow Hj ltac:(lia)) as (r & Hr & Hq).
   rewrite Hr in H. injection H as ->. destruct Hq as (Hq & _). destruct (Hq eq_refl) as (Hm & Hs).
   split; [|assumption]. unfold wf. repeat split; try assumption; lia.
+Qed.
+
+(* CSRMatrix::is_canonical always answers on arrays of bounded size, and decides [canon] *)
+Theorem is_canonical_spec (m : mat) :
+  crow m < 2 ^ 31 -> lenN (cj m) < 2 ^ 31 ->
+  exists r, is_canonical m = Ok r /\ (r = true <-> canon m).
+Proof.
+  intros Hrow Hj.
+  assert (Hdec : (exists r, is_canonical m = Ok r)).
+  { unfold is_canonical. rewrite uadd_small by lia.
+    destruct (N.eqb_spec (lenN (cp m)) (crow m + 1)) as [Hlen|]; cbn [negb]; [|eauto].
+    rewrite (getN_ok (cp m) 0 0) by lia. cbn [bind].
+    destruct (negb (nthN (cp m) 0 0 =? 0)); [eauto|].
+    rewrite (getN_ok (cp m) (crow m) 0) by lia. cbn [bind]. fold (pN m (crow m)).
+    destruct (N.eqb_spec (lenN (cj m)) (pN m (crow m))) as [Hn|]; cbn [negb orb]; [|eauto].
+    destruct (negb (lenN (cx m) =? pN m (crow m))); [eauto|].
+    destruct (has_canonical_format_spec m Hlen Hrow Hj ltac:(lia)) as (r & Hr & _). eauto. }
+  destruct Hdec as (r & Hr). exists r. split; [assumption|]. split.
+  - intros ->. apply is_canonical_sound; assumption.
+  - intros Hc. rewrite (is_canonical_complete m Hc Hrow Hj) in Hr. injection Hr as <-. reflexivity.
 Qed.
 
 End Canon.
